@@ -513,6 +513,84 @@ def r11(ctx, prog):
                'the selection tests %s, which setTimezone() does not set to a constant' % sorted(x.split('::')[-1] for x in cf), where=f.loc(st['i']))
 
 
+def r12(ctx, prog):
+    ctx.rule('C20.R12', 'A10 configuration and alignment by folding: every alarm kind accepts exactly the seconds-of-day 0..86399; WeeklyAlarm::initialize turns the 7-character '
+             'mask into bit i for character i == \'1\', i = 0..6, each once; in the day scans the weekday / day index of the first iteration is today\'s (the candidate instant '
+             'starts at today, so the loop variable must start at 0); the clock read is taken as successful exactly when gettimeofday() returns 0', floor=8)
+    n = 0
+    SOD = 86400
+    for f in prog.funcs.values():
+        if f.short != 'initialize' or not f.file.startswith(MODULES + '/alarm/') or f.parent_usr:
+            continue
+        par = [p_ for p_ in f.params if p_['n'] == 'seconds_of_day']
+        if not par:
+            continue
+        # the rejecting test: an `if` over seconds_of_day alone (global constants aside) whose then-branch returns false
+        locs = lambda e: {f.stmts[x].get('n') for x in f.walk(e) if f.stmts[x]['k'] == 'DeclRefExpr' and f.stmts[x].get('dk') in ('ParmVar', 'Var') and not f.stmts[x].get('gl')}
+        ifs = [st for st in f.stmts if st and st['k'] == 'IfStmt' and st.get('cond') is not None and locs(st['cond']) == {'seconds_of_day'} and
+               any(q.return_const(f, r) == 0 and r['i'] in set(f.walk(st['i'])) for r in q.returns(f))]
+        if not ifs:
+            ctx.ob('C20.R12', '%s|seconds-of-day' % f.name, False, 'no range check of seconds_of_day', where=f.loc(f.body))
+            continue
+        n += 1
+        bad = []
+        for v in (-1, 0, 1, SOD - 1, SOD, SOD + 1):
+            x = q.eval_expr(f, ifs[0]['cond'], lambda sx, v=v: v if (sx['k'] == 'DeclRefExpr' and sx.get('n') == 'seconds_of_day') else None, signed=True)
+            if x is None or bool(x) != (v < 0 or v >= SOD):
+                bad.append(v)
+        ctx.ob('C20.R12', '%s|seconds-of-day' % f.name, not bad, 'accepts exactly 0..86399' if not bad else
+               'seconds_of_day == %d is %s' % (bad[0], 'refused (a legal time of day)' if 0 <= bad[0] < SOD else 'accepted (not a time of day)'), where=f.loc(f.body))
+    # weekly mask
+    wi = prog.fn1('tbox::alarm::WeeklyAlarm::initialize')
+    loops = [st for st in wi.stmts if st and st['k'] == 'ForStmt' and st.get('cond') is not None]
+    ors = [st for st in wi.stmts if st and st['k'] == 'CompoundAssignOperator' and st.get('op') == '|=' and (wi.field_of(st['ch'][0]) or '').endswith('week_mask_')]
+    if len(loops) != 1 or len(ors) != 1:
+        raise AnalysisBroken('WeeklyAlarm::initialize: mask loop / |= not found (%d/%d)' % (len(loops), len(ors)))
+    lp = loops[0]
+    consts = [wi.stmts[x] for x in wi.walk(lp['cond']) if wi.stmts[x].get('cv') is not None and wi.stmts[x]['k'] != 'BinaryOperator']
+    tr = q.loop_trips(wi, lp, lambda sx: bool(consts) and sx['i'] == consts[0]['i'], counts=[7])
+    ivn = None
+    for x in wi.walk(lp['init']):
+        if wi.stmts[x]['k'] == 'DeclStmt':
+            ivn = wi.stmts[x]['decls'][0]['n']
+    okl = tr is not None and tr.get(7) == (7, 0)
+    bits = [q.eval_expr(wi, ors[0]['ch'][1], lambda sx, i=i: i if (sx['k'] == 'DeclRefExpr' and sx.get('n') == ivn) else None) for i in range(7)]
+    okb = bits == [1 << i for i in range(7)]
+    one = False
+    for c, k, b in wi.cfg.controlling_branches(q.pt_or_term(wi, ors[0])):
+        cs = wi.s(wi.strip_casts(c))
+        if cs and cs['k'] == 'BinaryOperator' and cs.get('op') == '==' and k == 0 and any((wi.s(x) or {}).get('cv') == ord('1') or (wi.s(wi.strip_casts(x)) or {}).get('v') == ord('1') for x in cs['ch']):
+            one = True
+    n += 1
+    ctx.ob('C20.R12', '%s|mask' % wi.name, okl and okb and one, 'characters 0..6, bit i for \'1\' at position i' if okl and okb and one else
+           'the weekday mask is not built as bit i <- (mask[i] == \'1\') for i = 0..6 (%s): a configured weekday is dropped or a wrong one set' %
+           ('loop runs %s' % (tr.get(7),) if not okl else ('bits %s' % bits if not okb else 'the character compared is not \'1\'')), where=wi.loc(lp['i']))
+    # alignment of the day scans
+    for name, cnt in (('tbox::alarm::WeeklyAlarm::calculateNextLocalTimeSec', None), ('tbox::alarm::WorkdayAlarm::calculateNextLocalTimeSec', None)):
+        g = prog.fn1(name)
+        lps = [st for st in g.stmts if st and st['k'] == 'ForStmt' and st.get('init') is not None]
+        if len(lps) != 1:
+            raise AnalysisBroken('%s: day scan not found' % name)
+        start = None
+        for x in g.walk(lps[0]['init']):
+            if g.stmts[x]['k'] == 'DeclStmt' and 'init' in g.stmts[x]['decls'][0]:
+                start = (g.s(g.stmts[x]['decls'][0]['init']) or {}).get('cv')
+        n += 1
+        ctx.ob('C20.R12', '%s|scan-aligned' % g.name, start == 0, 'the scan starts at day offset 0 together with today\'s candidate instant' if start == 0 else
+               'the scan starts at day offset %s while the candidate instant starts at today: every candidate is judged by the calendar entry of a different day' % start, where=g.loc(lps[0]['i']))
+    # clock read
+    for g in prog.fn(AL + '::GetCurrentUtcTime'):
+        for blk in g.cfg.blocks.values():
+            if blk.cond is not None and any(c.get('callee') == 'gettimeofday' for c in q.subtree_calls(g, blk.cond)):
+                vec = [q.eval_expr(g, blk.cond, lambda sx, v=v: v if (sx['k'] in q.CALL_KINDS and sx.get('callee') == 'gettimeofday') else None, signed=True) for v in (-1, 0)]
+                n += 1
+                ok = None not in vec and [bool(x) for x in vec] in ([False, True], [True, False])
+                ctx.ob('C20.R12', '%s|clock-ok@%s' % (g.short, g.loc(blk.cond).split(':')[-1]), ok, 'the read is taken as good exactly on a return of 0' if ok else
+                       'gettimeofday()\'s result is not tested against 0: the clock is never (or always) taken as read', where=g.loc(blk.cond))
+    if n < 8:
+        raise AnalysisBroken('expected >= 8 configuration/alignment tests in the alarm module, found %d' % n)
+
+
 def run(ctx):
     prog = extract('ALL' if ctx.tier == 'thorough' else scope_units())
     ctx.guard(r1, ctx, prog)
@@ -526,4 +604,5 @@ def run(ctx):
     ctx.guard(r9, ctx, prog)
     ctx.guard(r10, ctx, prog)
     ctx.guard(r11, ctx, prog)
+    ctx.guard(r12, ctx, prog)
     return prog
